@@ -1,9 +1,11 @@
 package main
 
 import (
+	"bufio"
 	"bytes"
 	"encoding/json"
 	"fmt"
+	"os"
 	"path/filepath"
 	"runtime"
 	"strings"
@@ -205,13 +207,13 @@ func valInfo(v ValSpec, val fhir.Base) map[string]any {
 // runBehaviour executes one behaviour on a fresh copy of its resource.
 func runBehaviour(pool *Pool, b Behaviour) map[string]any {
 	res := pool.Fresh(b.Res)
-	cur, err := lib.Annotate(res)
-	if err != nil {
-		lib.Fatal("annotate %s: %v", b.Res, err)
-	}
-	if cur.Root.H != pool.Ann[b.Res].Root.H {
+	// the annotated tree is a function of the message content: the fresh copy has
+	// the pristine tree when its content hash is the pristine one
+	cur := pool.Ann[b.Res]
+	if lib.HashMsg(res) != cur.Root.H {
 		lib.Fatal("resource %s: fresh copy differs from the pristine tree", b.Res)
 	}
+	curIdx := pool.hashIdx(b.Res)
 	steps := make([]any, 0, len(b.Steps))
 	for si, st := range b.Steps {
 		rec := map[string]any{"op": st.Op, "path": st.Path, "text": st.Text, "name": st.Name, "index": st.Index, "nilres": st.NilRes, "form": st.Form, "vlabel": st.VLabel}
@@ -298,6 +300,13 @@ func runBehaviour(pool *Pool, b Behaviour) map[string]any {
 			steps = append(steps, rec)
 			break
 		}
+		if eq && det && has {
+			// content, bytes and presence bits unchanged: the tree is the previous tree
+			rec["post"] = map[string]any{"st": 1, "n": cur.Root.N, "jn": cur.Root.JN, "li": false, "cx": false, "pn": cur.Root.Pn, "h": cur.Root.H, "a": []int{}}
+			rec["posterr"] = ""
+			steps = append(steps, rec)
+			continue
+		}
 		post, err := lib.Annotate(res)
 		if err != nil {
 			rec["post"] = map[string]any{"st": 1, "n": cur.Root.N, "jn": cur.Root.JN, "li": false, "cx": false, "pn": cur.Root.Pn, "h": cur.Root.H, "a": []int{}}
@@ -312,10 +321,11 @@ func runBehaviour(pool *Pool, b Behaviour) map[string]any {
 		if donor != nil {
 			rel = len(donor.Addr)
 		}
-		rec["post"] = prune(post.Root, cur, hashIndex(cur.Root, 0), donor, hashIndex(donor, rel))
+		rec["post"] = prune(post.Root, cur, curIdx, donor, hashIndex(donor, rel))
 		rec["posterr"] = ""
 		steps = append(steps, rec)
 		cur = post
+		curIdx = hashIndex(cur.Root, 0)
 	}
 	return map[string]any{"id": b.ID, "res": b.Res, "src": b.Src, "steps": steps}
 }
@@ -339,20 +349,27 @@ func cmdRun(outdir, casesPath, obsPath string) {
 	if casesPath != "-" {
 		read(casesPath)
 	}
-	w, err := lib.NewWriter(obsPath)
+	lines := make([][]byte, len(cases))
+	lib.ParallelMap(len(cases), runtime.NumCPU(), func(i int) {
+		b, err := json.Marshal(runBehaviour(pool, cases[i]))
+		if err != nil {
+			lib.Fatal("%v", err)
+		}
+		lines[i] = b
+	})
+	f, err := os.Create(obsPath)
 	if err != nil {
 		lib.Fatal("%v", err)
 	}
-	recs := make([]map[string]any, len(cases))
-	lib.ParallelMap(len(cases), runtime.NumCPU(), func(i int) {
-		recs[i] = runBehaviour(pool, cases[i])
-	})
-	for _, r := range recs {
-		if err := w.Write(r); err != nil {
-			lib.Fatal("%v", err)
-		}
+	bw := bufio.NewWriterSize(f, 1<<20)
+	for _, l := range lines {
+		bw.Write(l)
+		bw.WriteByte('\n')
 	}
-	if err := w.Close(); err != nil {
+	if err := bw.Flush(); err != nil {
+		lib.Fatal("%v", err)
+	}
+	if err := f.Close(); err != nil {
 		lib.Fatal("%v", err)
 	}
 }
